@@ -79,7 +79,7 @@ def parse_dump(text):
 
 
 def _is_compile_reject(r):
-    return "Did not compile successfully" in (r.err + r.out) and core.BANNER not in r.err
+    return core.compile_rejected(r)
 
 
 def _step(side, stage, argv, d, cpu, dump=False):
@@ -776,14 +776,12 @@ def work_opcode(item):
         b = _read(os.path.join(d, "t.mmm"), binary=True) or b""
         head = b"f __module__\0"
         res["binary"] = _show_bytes(b)
-        if not b.startswith(head) or not b.endswith(b"e\0") or len(b) < len(head) + 4:
-            res["problem"], res["detail"] = "framing", "binary file is %r" % b[:80]
-            return res
-        rec = b[len(head):-2]
-        if rec[0] != index:
-            res["problem"] = "wrong_byte"
-            res["detail"] = "instruction `%s` (table index %d) was written as byte %d" % (name, index, rec[0])
-            return res
+        # The byte layout of a .mmm file is the business of writer and loader together (a header record, another
+        # framing are legitimate as long as both agree): what is decided here is what the LOADER of the same build
+        # reads back — the instruction with this name and exactly these arguments.  The raw bytes are kept for the
+        # witness only.
+        if b.startswith(head) and b.endswith(b"e\0") and len(b) >= len(head) + 4 and b[len(head)] != index:
+            res["raw_byte_note"] = "instruction `%s` (opcode %d in the loader's table) was written as byte %d" % (name, index, b[len(head)])
         r2 = core.run(core.ms("execute", "t.mmm"), d, env={"MSCRIPT_VERIF_DUMP": os.path.join(d, "_dump.log")}, cpu=10)
         text = _read(os.path.join(d, "_dump.log"))
         loaded = parse_dump(text).get(("t.mmm", "__module__")) if text else None
@@ -794,8 +792,9 @@ def work_opcode(item):
             res["problem"], res["detail"] = "load_failed", (r2.err.strip())[-300:]
         elif loaded != [(cindex, args)]:
             res["problem"] = "args_changed" if loaded and loaded[0][0] == cindex else "wrong_opcode_loaded"
-            res["detail"] = "text form `%s%s` was loaded as %r, expected %r" % (
-                name, text_args, [(tracecheck.opname(o), a) for o, a in loaded], [(name, args)])
+            res["detail"] = "text form `%s%s` was loaded as %r, expected %r%s" % (
+                name, text_args, [(tracecheck.opname(o), a) for o, a in loaded], [(name, args)],
+                (" — " + res["raw_byte_note"]) if res.get("raw_byte_note") else "")
         return res
     finally:
         core.rm(d)
